@@ -9,7 +9,7 @@ Open Scope string_scope.
 
 (* the code's constants are the documented ones *)
 Theorem C07_generated_constants :
-  unrecoverable_errors = ["States.Runtime"; "States.ExecutionTimeout"; "Task.Terminated"] /\
+  unrecoverable_errors = ["States.Runtime"; "States.ExecutionTimeout"; "Task.Terminated"; "States.ExecutionHistoryLimitExceeded"] /\
   retry_default_interval = (1 # 1)%Q /\ retry_default_max = 3%Z /\ retry_default_rate = (2 # 1)%Q /\
   retry_rate_floor = (1 # 1)%Q /\ retry_rate_floor_value = (1 # 1)%Q.
 Proof. exact generated_constants. Qed.
